@@ -1238,6 +1238,9 @@ def _rolling_sum_or_mean_1d(
 
     # Track rolling sums and circular buffers for each group
     group_sums = np.zeros(ngroups)
+    # running compensation (Neumaier): the low-order bits the running sums round away. Without it
+    # a large value that has left the window keeps distorting every later sum of its group
+    group_comp = np.zeros(ngroups)
     group_buffers = np.full((ngroups, window), null_value)
     group_positions = np.zeros(ngroups, dtype=np.int64)
     group_non_null = np.zeros(ngroups, dtype=np.int64)
@@ -1265,13 +1268,31 @@ def _rolling_sum_or_mean_1d(
             if group_full:
                 old_val = group_buffers[key, pos]
                 if not is_null(old_val):
-                    group_sums[key] -= old_val
+                    total = group_sums[key] - old_val
+                    if not np.isfinite(total):
+                        pass  # infinities have no low-order bits to keep
+                    elif abs(group_sums[key]) >= abs(old_val):
+                        group_comp[key] += (group_sums[key] - total) - old_val
+                    else:
+                        group_comp[key] += (-old_val - total) + group_sums[key]
+                    group_sums[key] = total
                     group_non_null[key] -= 1
+                    if group_non_null[key] == 0:
+                        # nothing left in the window: start afresh
+                        group_sums[key] = 0.0
+                        group_comp[key] = 0.0
 
             # Add new value
             if not val_is_null:
                 group_non_null[key] += 1
-                group_sums[key] += val
+                total = group_sums[key] + val
+                if not np.isfinite(total):
+                    pass
+                elif abs(group_sums[key]) >= abs(val):
+                    group_comp[key] += (group_sums[key] - total) + val
+                else:
+                    group_comp[key] += (val - total) + group_sums[key]
+                group_sums[key] = total
 
             group_buffers[key, pos] = val
 
@@ -1281,10 +1302,11 @@ def _rolling_sum_or_mean_1d(
                 group_n_seen[key] += 1
 
             if group_non_null[key] >= min_periods:
+                window_sum = group_sums[key] + group_comp[key]
                 if want_mean:
-                    out[i] = group_sums[key] / group_non_null[key]
+                    out[i] = window_sum / group_non_null[key]
                 else:
-                    out[i] = group_sums[key]
+                    out[i] = window_sum
 
     return out
 
